@@ -474,6 +474,7 @@ func runC10R3(c *eng.Ctx, r *eng.RuleCtx) {
 	if f := r.NeedFunc(pkgCfg + ".(*HookConfigV1).ConvertAndCheck"); f != nil {
 		info := f.Pkg.TypesInfo
 		g := p.GraphOf(f)
+		effLocal := map[string]types.Object{} // the local that holds a flag's effective value, when there is one
 		for _, fl := range []string{"ExecuteHookOnSynchronization", "KeepFullObjectsInMemory"} {
 			eff := p.Field(pkgHTypes, "OnKubernetesEventConfig", fl)
 			isFalseRaw := g.FactEdge(func(fc eng.Fact) bool {
@@ -501,7 +502,10 @@ func runC10R3(c *eng.Ctx, r *eng.RuleCtx) {
 					}
 					continue
 				}
-				x, y, eq, isEq := eng.EqAtom(eng.Fact{X: as.Rhs[0], Pos: true})
+				if lv := eng.SelObj(info, as.Rhs[0]); lv != nil {
+					effLocal[fl] = lv
+				}
+				x, y, eq, isEq := eng.EqAtom(eng.Fact{X: resolveLocal(info, f.Decl.Body, as.Rhs[0]), Pos: true})
 				v, isStr := eng.ConstStr(info, y)
 				sx, isS := ast.Unparen(x).(*ast.SelectorExpr)
 				if isEq && !eq && isStr && v == "false" && isS && sx.Sel.Name == fl && nStores == 1 {
@@ -534,6 +538,9 @@ func runC10R3(c *eng.Ctx, r *eng.RuleCtx) {
 			if as, isA := n.(*ast.AssignStmt); isA && len(as.Lhs) == 1 && eng.IsField(info, as.Lhs[0], mon) {
 				if sx, isS := ast.Unparen(as.Rhs[0]).(*ast.SelectorExpr); isS && sx.Sel.Name == "KeepFullObjectsInMemory" {
 					ok = true
+				}
+				if lv := eng.SelObj(info, as.Rhs[0]); lv != nil && lv == effLocal["KeepFullObjectsInMemory"] {
+					ok = true // the same local that is stored as the binding's effective value
 				}
 			}
 			return true
